@@ -21,11 +21,20 @@ the model is shown to suffice on every `Graph` value (`scc_never_diverges`).  A 
 recursive Rust functions on a very long path is outside the model (release build, 8 MiB stack: a one-way chain
 of 36 091 vertices passes, one of 55 000 aborts the process).
 
-The correspondence run (harness/src/c18.rs, Drv/C18.lean) additionally applies the verified checker
+Since /repo 1dee70f the two searches keep their pending vertices in an explicit frame list instead of
+recursing (the recursion overflowed the call stack on deep networks: finding `scc/stack-overflow`).  The
+model of that code is `dfsIter` / `allSccIter`; it is proved equal to the recursive model on EVERY `Graph`
+value (`code_model_eq`), so each theorem below holds of both, and `scc_correct_code` restates the main
+result for the code as it is.  `scc_correct_every_loaded_network` discharges the well-formedness hypothesis
+for every network `Graph::from_files` returns (model and theorems of C15), and the last part of the file
+covers the accessors of `graph.rs` that C15 does not (`…_iter`, `incident_triplet_attributes`).
+
+The correspondence run (harness/src/c18.rs, harness/src/c18_net.rs, Drv/C18.lean) additionally applies the verified checker
 `isSccPartition` (`isSccPartition_sound_complete`) to the model's and to the implementation's output on
 every well-formed case of at most 48 vertices; that part is testing, not proof.
 -/
 import Compass.Proofs.Scc
+import Compass.Proofs.SccNet
 
 namespace Compass
 namespace C18
@@ -35,13 +44,13 @@ open Compass.Scc
 
 /-- on a well-formed graph the component analysis returns a result: no `EdgeNotFound`, and the recursion
 budget of the model is never exhausted -/
-theorem scc_total (g : Graph) (hwf : g.wfb = true) : ∃ cs, allScc g = .ok cs := by
+theorem scc_total (g : Scc.Graph) (hwf : g.wfb = true) : ∃ cs, allScc g = .ok cs := by
   obtain ⟨cs, h, _⟩ := allScc_good (g.wf_of_wfb hwf)
   exact ⟨cs, h⟩
 
 /-- for **every** `Graph` value, well formed or not, the recursion budget of the model is never the reason
 for an outcome: the model returns a result or `EdgeNotFound` (the fuel is a proof device, not a limit) -/
-theorem scc_never_diverges (g : Graph) :
+theorem scc_never_diverges (g : Scc.Graph) :
     allScc g ≠ .error .diverges ∧ largestScc g ≠ .error .diverges := by
   refine ⟨allScc_ne_diverges g, ?_⟩
   unfold largestScc
@@ -52,7 +61,7 @@ theorem scc_never_diverges (g : Graph) :
   | ok cs => simp
 
 /-- all four clauses at once -/
-theorem scc_correct (g : Graph) (hwf : g.wfb = true) (cs : List (List Nat)) (h : allScc g = .ok cs) :
+theorem scc_correct (g : Scc.Graph) (hwf : g.wfb = true) (cs : List (List Nat)) (h : allScc g = .ok cs) :
     IsSccPartition g cs := by
   obtain ⟨cs', h', hgood⟩ := allScc_good (g.wf_of_wfb hwf)
   rw [h] at h'
@@ -62,37 +71,37 @@ theorem scc_correct (g : Graph) (hwf : g.wfb = true) (cs : List (List Nat)) (h :
 
 /-- every vertex appears in exactly one component: no component is empty, the concatenation of all
 components has no repetition, and it holds exactly the vertices `0 .. n-1` -/
-theorem scc_partition (g : Graph) (hwf : g.wfb = true) (cs : List (List Nat)) (h : allScc g = .ok cs) :
+theorem scc_partition (g : Scc.Graph) (hwf : g.wfb = true) (cs : List (List Nat)) (h : allScc g = .ok cs) :
     (∀ c ∈ cs, c ≠ []) ∧ cs.flatten.Nodup ∧ (∀ v, v ∈ cs.flatten ↔ v < g.n) :=
   let p := scc_correct g hwf cs h
   ⟨p.nonempty, p.nodup, p.cover⟩
 
 /-- the same, said per vertex: there is exactly one component that holds `v` -/
-theorem scc_exactly_one (g : Graph) (hwf : g.wfb = true) (cs : List (List Nat)) (h : allScc g = .ok cs)
+theorem scc_exactly_one (g : Scc.Graph) (hwf : g.wfb = true) (cs : List (List Nat)) (h : allScc g = .ok cs)
     (v : Nat) (hv : v < g.n) : ∃ c, (c ∈ cs ∧ v ∈ c) ∧ ∀ c', (c' ∈ cs ∧ v ∈ c') → c' = c := by
   have p := scc_correct g hwf cs h
   obtain ⟨c, hc, hvc⟩ := List.mem_flatten.1 ((p.cover v).2 hv)
   exact ⟨c, ⟨hc, hvc⟩, fun c' ⟨hc', hvc'⟩ => unique_block cs p.nodup hc hc' hvc hvc'⟩
 
 /-- two vertices in one component are mutually reachable -/
-theorem scc_sound (g : Graph) (hwf : g.wfb = true) (cs : List (List Nat)) (h : allScc g = .ok cs)
+theorem scc_sound (g : Scc.Graph) (hwf : g.wfb = true) (cs : List (List Nat)) (h : allScc g = .ok cs)
     (c : List Nat) (hc : c ∈ cs) (u v : Nat) (hu : u ∈ c) (hv : v ∈ c) : g.Reach u v ∧ g.Reach v u :=
   ((scc_correct g hwf cs h).classes c hc u hu v).1 hv
 
 /-- mutually reachable vertices share a component: the component of `u` holds every `v` with `u ⇝ v ⇝ u` -/
-theorem scc_complete (g : Graph) (hwf : g.wfb = true) (cs : List (List Nat)) (h : allScc g = .ok cs)
+theorem scc_complete (g : Scc.Graph) (hwf : g.wfb = true) (cs : List (List Nat)) (h : allScc g = .ok cs)
     (u v : Nat) (huv : g.Reach u v) (hvu : g.Reach v u) (c : List Nat) (hc : c ∈ cs) (hu : u ∈ c) : v ∈ c :=
   ((scc_correct g hwf cs h).classes c hc u hu v).2 ⟨huv, hvu⟩
 
 /-- … and such a component exists for every vertex -/
-theorem scc_complete_exists (g : Graph) (hwf : g.wfb = true) (cs : List (List Nat)) (h : allScc g = .ok cs)
+theorem scc_complete_exists (g : Scc.Graph) (hwf : g.wfb = true) (cs : List (List Nat)) (h : allScc g = .ok cs)
     (u v : Nat) (hun : u < g.n) (huv : g.Reach u v) (hvu : g.Reach v u) : ∃ c ∈ cs, u ∈ c ∧ v ∈ c := by
   have p := scc_correct g hwf cs h
   obtain ⟨c, hc, huc⟩ := List.mem_flatten.1 ((p.cover u).2 hun)
   exact ⟨c, hc, huc, scc_complete g hwf cs h u v huv hvu c hc huc⟩
 
 /-- two vertices share a component exactly when each can reach the other -/
-theorem scc_iff (g : Graph) (hwf : g.wfb = true) (cs : List (List Nat)) (h : allScc g = .ok cs)
+theorem scc_iff (g : Scc.Graph) (hwf : g.wfb = true) (cs : List (List Nat)) (h : allScc g = .ok cs)
     (u v : Nat) (hun : u < g.n) : (∃ c ∈ cs, u ∈ c ∧ v ∈ c) ↔ (g.Reach u v ∧ g.Reach v u) :=
   ⟨fun ⟨c, hc, hu, hv⟩ => scc_sound g hwf cs h c hc u v hu hv,
    fun ⟨h1, h2⟩ => scc_complete_exists g hwf cs h u v hun h1 h2⟩
@@ -102,7 +111,7 @@ theorem scc_iff (g : Graph) (hwf : g.wfb = true) (cs : List (List Nat)) (h : all
 /-- `depth_first_search` from a vertex `v`, with `vis` already visited: it returns, pushes a repetition-free
 block `new` on the stack, adds exactly that block to the visited set, and the block holds exactly the
 vertices reachable from `v` along edges by a walk that avoids `vis` -/
-theorem dfs_white_path (g : Graph) (hwf : g.wfb = true) (v : Nat) (hv : v < g.n) (vis st : List Nat) :
+theorem dfs_white_path (g : Scc.Graph) (hwf : g.wfb = true) (v : Nat) (hv : v < g.n) (vis st : List Nat) :
     ∃ new vis', dfs g g.fuel v (vis, st) = .ok (vis', new ++ st) ∧ new.Nodup ∧
       (∀ x, x ∈ vis' ↔ (x ∈ vis ∨ x ∈ new)) ∧
       ∀ y, y ∈ new ↔ RA g.Edge (fun u => u ∈ vis) v y := by
@@ -113,7 +122,7 @@ theorem dfs_white_path (g : Graph) (hwf : g.wfb = true) (v : Nat) (hv : v < g.n)
 
 /-- `reverse_depth_first_search`: the same along reversed edges — the block holds exactly the vertices
 from which `v` can be reached by a walk that avoids `vis` -/
-theorem rdfs_white_path (g : Graph) (hwf : g.wfb = true) (v : Nat) (hv : v < g.n) (vis st : List Nat) :
+theorem rdfs_white_path (g : Scc.Graph) (hwf : g.wfb = true) (v : Nat) (hv : v < g.n) (vis st : List Nat) :
     ∃ new vis', rdfs g g.fuel v (vis, st) = .ok (vis', new ++ st) ∧ new.Nodup ∧
       (∀ x, x ∈ vis' ↔ (x ∈ vis ∨ x ∈ new)) ∧
       ∀ y, y ∈ new ↔ RA g.Edge (fun u => u ∈ vis) y v := by
@@ -127,7 +136,7 @@ theorem rdfs_white_path (g : Graph) (hwf : g.wfb = true) (v : Nat) (hv : v < g.n
 
 /-- the reported largest component is at least as long as every component, and it is one of them
 (whenever some component is non-empty).  No well-formedness needed: this is the selection loop alone. -/
-theorem largest_is_max (g : Graph) (cs : List (List Nat)) (big : List Nat)
+theorem largest_is_max (g : Scc.Graph) (cs : List (List Nat)) (big : List Nat)
     (hall : allScc g = .ok cs) (hbig : largestScc g = .ok big) :
     (∀ c ∈ cs, c.length ≤ big.length) ∧ ((∃ c ∈ cs, c ≠ []) → big ∈ cs) := by
   unfold largestScc at hbig
@@ -138,7 +147,7 @@ theorem largest_is_max (g : Graph) (cs : List (List Nat)) (big : List Nat)
 
 /-- on a well-formed graph with at least one vertex the largest component is returned, it is a
 mutual-reachability class, and no class is bigger -/
-theorem largest_is_max_class (g : Graph) (hwf : g.wfb = true) (hn : 0 < g.n) :
+theorem largest_is_max_class (g : Scc.Graph) (hwf : g.wfb = true) (hn : 0 < g.n) :
     ∃ cs big, allScc g = .ok cs ∧ largestScc g = .ok big ∧ big ∈ cs ∧ (∀ c ∈ cs, c.length ≤ big.length) ∧
       ∀ u ∈ big, ∀ v, v ∈ big ↔ (g.Reach u v ∧ g.Reach v u) := by
   obtain ⟨cs, h⟩ := scc_total g hwf
@@ -152,7 +161,7 @@ theorem largest_is_max_class (g : Graph) (hwf : g.wfb = true) (hn : 0 < g.n) :
 
 /-- ties: of several components of maximal size the first one in result order is reported
 (`>` in the selection loop, not `>=`) -/
-theorem largest_ties_first (g : Graph) (pre suf : List (List Nat)) (c : List Nat)
+theorem largest_ties_first (g : Scc.Graph) (pre suf : List (List Nat)) (c : List Nat)
     (hall : allScc g = .ok (pre ++ c :: suf)) (hc : c ≠ [])
     (hpre : ∀ a ∈ pre, a.length < c.length) (hsuf : ∀ a ∈ suf, a.length ≤ c.length) :
     largestScc g = .ok c := by
@@ -165,34 +174,190 @@ formed whenever every end point is a vertex, so the statements above hold for ev
 edge list (self loops, repeated pairs, vertices without edges included). -/
 
 theorem scc_correct_every_digraph (n : Nat) (es : List (Nat × Nat)) (h : ∀ p ∈ es, p.1 < n ∧ p.2 < n) :
-    (∀ u v, (Graph.ofEdges n es).Edge u v ↔ (u, v) ∈ es) ∧
-    ∃ cs, allScc (Graph.ofEdges n es) = .ok cs ∧ IsSccPartition (Graph.ofEdges n es) cs := by
+    (∀ u v, (Scc.Graph.ofEdges n es).Edge u v ↔ (u, v) ∈ es) ∧
+    ∃ cs, allScc (Scc.Graph.ofEdges n es) = .ok cs ∧ IsSccPartition (Scc.Graph.ofEdges n es) cs := by
   refine ⟨ofEdges_edge n es, ?_⟩
   obtain ⟨cs, hcs⟩ := scc_total _ (ofEdges_wfb n es h)
   exact ⟨cs, hcs, scc_correct _ (ofEdges_wfb n es h) cs hcs⟩
 
+/-! ### the code as it is: frame-list searches (/repo 1dee70f) -/
+
+/-- the model of the current code (explicit frames, a loop) and the recursive model the proofs are carried out
+on return the same thing on every `Graph` value — results, `EdgeNotFound`, and never `diverges` -/
+theorem code_model_eq (g : Scc.Graph) : allSccIter g = allScc g ∧ largestSccIter g = largestScc g :=
+  ⟨allSccIter_eq g, largestSccIter_eq g⟩
+
+/-- the two public search functions, called on their own from any state: the frame-list search returns what
+the recursive search returns -/
+theorem search_functions_eq (g : Scc.Graph) (v : Nat) (hv : v ∈ g.universe) (vis st : List Nat) :
+    dfsI g v (vis, st) = dfs g g.fuel v (vis, st) ∧ rdfsI g v (vis, st) = rdfs g g.fuel v (vis, st) :=
+  ⟨dfsI_eq g v hv vis st, rdfsI_eq g v hv vis st⟩
+
+/-- the loop of the current code ends within the model's budget of turns on every `Graph` value -/
+theorem code_never_diverges (g : Scc.Graph) :
+    allSccIter g ≠ .error .diverges ∧ largestSccIter g ≠ .error .diverges := by
+  rw [allSccIter_eq, largestSccIter_eq]
+  exact scc_never_diverges g
+
+/-- the property, for the code as it is: on every well-formed graph both functions return, the components are
+the partition into mutual-reachability classes, and the reported largest one is a class of maximal size -/
+theorem scc_correct_code (g : Scc.Graph) (hwf : g.wfb = true) :
+    ∃ cs big, allSccIter g = .ok cs ∧ largestSccIter g = .ok big ∧ IsSccPartition g cs ∧
+      (∀ c ∈ cs, c.length ≤ big.length) ∧ (0 < g.n → big ∈ cs) := by
+  obtain ⟨cs, h⟩ := scc_total g hwf
+  have p := scc_correct g hwf cs h
+  have hbig : largestScc g = .ok (largestOf cs) := by simp [largestScc, h]
+  have hm := largest_is_max g cs _ h hbig
+  refine ⟨cs, largestOf cs, by rw [allSccIter_eq, h], by rw [largestSccIter_eq, hbig], p, hm.1, ?_⟩
+  intro hn
+  obtain ⟨c, hc, _⟩ := List.mem_flatten.1 ((p.cover 0).2 hn)
+  exact hm.2 ⟨c, hc, p.nonempty c hc⟩
+
+/-! ### every network the loader returns
+
+`graphFromFiles` is C15's model of `Graph::from_files` (files abstracted: can it be read, how many lines does
+the scan see, which rows decode).  `Scc.Graph.ofNet` is what the analysis reads of a network value, and it
+reads it through `vertex_ids`, `out_edges`, `in_edges`, `src_vertex_id`, `dst_vertex_id`. -/
+
+theorem analysis_reads_through_accessors {α : Type} (net : Compass.Graph α) :
+    (Scc.Graph.ofNet net).n = net.vertexIds.length ∧
+    (∀ v, (Scc.Graph.ofNet net).outEdges v = net.outEdges v ∧ (Scc.Graph.ofNet net).inEdges v = net.inEdges v) ∧
+    (∀ e, (Scc.Graph.ofNet net).srcOf e = (match net.srcVertexId e with | .ok v => some v | .error _ => none) ∧
+      (Scc.Graph.ofNet net).dstOf e = (match net.dstVertexId e with | .ok v => some v | .error _ => none)) := by
+  refine ⟨by simp [ofNet_n, Compass.Graph.vertexIds, Compass.Graph.nVertices],
+    fun v => ⟨ofNet_outEdges net v, ofNet_inEdges net v⟩,
+    fun e => ⟨ofNet_srcOf_accessor net e, ofNet_dstOf_accessor net e⟩⟩
+
+/-- for every pair of files, every way of giving the counts: if the load succeeds, the component analysis of
+the loaded network returns, and returns the partition of its vertices into the mutual-reachability classes of
+its edge records.  No hypothesis on the files (the loader rejects what is not a network). -/
+theorem scc_correct_every_loaded_network {α : Type} (ef : CsvFile (Edge α)) (vf : CsvFile (Vertex α))
+    (nE nV : Option Nat) (net : Compass.Graph α) (h : graphFromFiles ef vf nE nV = .ok net) :
+    (∀ u v, (Scc.Graph.ofNet net).Edge u v ↔ ∃ x ∈ net.edges, x.src = u ∧ x.dst = v) ∧
+    ∃ cs big, allSccIter (Scc.Graph.ofNet net) = .ok cs ∧ largestSccIter (Scc.Graph.ofNet net) = .ok big ∧
+      IsSccPartition (Scc.Graph.ofNet net) cs ∧ (∀ c ∈ cs, c.length ≤ big.length) := by
+  refine ⟨ofNet_edge net, ?_⟩
+  obtain ⟨cs, hcs, hgood⟩ := allScc_good (ofNet_loaded_wf ef vf nE nV net h)
+  refine ⟨cs, largestOf cs, by rw [allSccIter_eq, hcs], by rw [largestSccIter_eq]; simp [largestScc, hcs],
+    hgood.isSccPartition, largestOf_max cs⟩
+
+/-! ### accessors of `graph.rs` not covered by C15 -/
+
+/-- the `_iter` accessors yield the sequences of their collecting counterparts -/
+theorem iter_accessors_eq {α : Type} (g : Compass.Graph α) (v : Nat) (d : Direction) :
+    g.outEdgesIter v = g.outEdges v ∧ g.inEdgesIter v = g.inEdges v ∧
+    g.incidentEdgesIter v d = g.incidentEdges v d := by
+  refine ⟨rfl, rfl, ?_⟩
+  cases d <;> rfl
+
+/-- `incident_triplet_attributes`, every graph value, success arm: it returns `r` exactly when
+`incident_triplet_ids` returns some `l` and `r` holds, entry by entry, the records at the positions `l` names -/
+theorem triplet_attributes_ok_iff {α : Type} (g : Compass.Graph α) (v : Nat) (d : Direction)
+    (r : List (Vertex α × Edge α × Vertex α)) :
+    g.incidentTripletAttributes v d = .ok r ↔
+      ∃ l, g.incidentTripletIds v d = .ok l ∧
+        List.Forall₂ (fun t x => g.vertices[t.1]? = some x.1 ∧ g.edges[t.2.1]? = some x.2.1 ∧
+          g.vertices[t.2.2]? = some x.2.2) l r := by
+  unfold Compass.Graph.incidentTripletAttributes
+  cases hl : g.incidentTripletIds v d with
+  | error x => simp
+  | ok l =>
+    simp only [Except.ok.injEq, exists_eq_left']
+    exact Compass.Graph.tripletAttrsGo_ok_iff g l r
+
+/-- … error arm: the error is that of `incident_triplet_ids`, or a `VertexNotFound` naming the first or third
+id of one of its triplets at which there is no vertex record.  (The `?` on `get_edge` inside
+`incident_triplet_attributes` is dead code: `incident_triplet_ids` has just read that record.) -/
+theorem triplet_attributes_error {α : Type} (g : Compass.Graph α) (v : Nat) (d : Direction) (x : NetErr)
+    (h : g.incidentTripletAttributes v d = .error x) :
+    g.incidentTripletIds v d = .error x ∨
+    ∃ l, g.incidentTripletIds v d = .ok l ∧ ∃ t ∈ l,
+      (x = .vertexNotFound t.1 ∧ g.vertices[t.1]? = none) ∨
+      (x = .vertexNotFound t.2.2 ∧ g.vertices[t.2.2]? = none) := by
+  unfold Compass.Graph.incidentTripletAttributes at h
+  cases hl : g.incidentTripletIds v d with
+  | error y =>
+    rw [hl] at h
+    simp only [Except.error.injEq] at h
+    exact Or.inl (by rw [h])
+  | ok l =>
+    rw [hl] at h
+    obtain ⟨t, ht, hcase⟩ := Compass.Graph.tripletAttrsGo_error g l x h
+    refine Or.inr ⟨l, rfl, t, ht, ?_⟩
+    rcases hcase with h1 | h1 | h1
+    · exact Or.inl h1
+    · obtain ⟨ed, hed⟩ := Compass.Graph.tripletIdsGo_edges_exist g v d _ l hl t ht
+      rw [h1.2] at hed
+      cases hed
+    · exact Or.inr h1
+
+/-- on every network assembled from rows in the documented format (hence on every loaded network,
+`C15.loaded_graph_is_buildGraph`) the call never fails, has one entry per listed edge leaving `v`, in file
+order, and forward each entry is the `edge_triplet` of its edge -/
+theorem triplet_attributes_loaded_forward {α : Type} (es : List (Edge α)) (vs : List (Vertex α)) (nV : Nat)
+    (h : RowIds es) (hb : EndpointsBelow es nV) (hb' : EndpointsBelow es vs.length) (v : Nat) :
+    ∃ r, (buildGraph es vs nV).incidentTripletAttributes v .forward = .ok r ∧
+      List.Forall₂ (fun e t => (buildGraph es vs nV).edgeTriplet e.edgeId = .ok t)
+        (es.filter (fun e => e.src = v)) r := by
+  obtain ⟨r, hr, hf⟩ := tripletAttrsGo_listed es vs nV h hb' (es.filter (fun e => e.src = v))
+    (fun e he => (List.mem_filter.1 he).1)
+  refine ⟨r, ?_, hf⟩
+  unfold Compass.Graph.incidentTripletAttributes
+  rw [(C15.incident_triplet_ids_eq es vs nV h hb v).1]
+  have : (es.filter (fun e => e.src = v)).map (fun e => (v, e.edgeId, e.dst)) =
+      (es.filter (fun e => e.src = v)).map (fun e => (e.src, e.edgeId, e.dst)) := by
+    apply List.map_congr_left
+    intro e he
+    have := (List.mem_filter.1 he).2
+    simp only [decide_eq_true_eq] at this
+    rw [this]
+  simp only [this]
+  exact hr
+
+/-- … and in the reverse direction each entry is the `edge_triplet` of its edge with the two vertices swapped:
+the first component is the vertex asked for, i.e. the edge's *destination* -/
+theorem triplet_attributes_loaded_reverse {α : Type} (es : List (Edge α)) (vs : List (Vertex α)) (nV : Nat)
+    (h : RowIds es) (hb : EndpointsBelow es nV) (hb' : EndpointsBelow es vs.length) (v : Nat) :
+    ∃ r, (buildGraph es vs nV).incidentTripletAttributes v .reverse = .ok r ∧
+      List.Forall₂ (fun e t => (buildGraph es vs nV).edgeTriplet e.edgeId = .ok (t.2.2, t.2.1, t.1))
+        (es.filter (fun e => e.dst = v)) r := by
+  obtain ⟨r, hr, hf⟩ := tripletAttrsGo_listed_rev es vs nV h hb' (es.filter (fun e => e.dst = v))
+    (fun e he => (List.mem_filter.1 he).1)
+  refine ⟨r, ?_, hf⟩
+  unfold Compass.Graph.incidentTripletAttributes
+  rw [(C15.incident_triplet_ids_eq es vs nV h hb v).2]
+  have : (es.filter (fun e => e.dst = v)).map (fun e => (v, e.edgeId, e.src)) =
+      (es.filter (fun e => e.dst = v)).map (fun e => (e.dst, e.edgeId, e.src)) := by
+    apply List.map_congr_left
+    intro e he
+    have := (List.mem_filter.1 he).2
+    simp only [decide_eq_true_eq] at this
+    rw [this]
+  simp only [this]
+  exact hr
+
 /-! ### the verified checker used by the correspondence run (applying it is testing) -/
 
 /-- `isSccPartition` is sound and complete with respect to the reachability relation -/
-theorem isSccPartition_sound_complete (g : Graph) (hwf : g.wfb = true) (cs : List (List Nat)) :
+theorem isSccPartition_sound_complete (g : Scc.Graph) (hwf : g.wfb = true) (cs : List (List Nat)) :
     isSccPartition g cs = true ↔ IsSccPartition g cs :=
   isSccPartition_iff (g.wf_of_wfb hwf) cs
 
 /-- the checker accepts what the model computes -/
-theorem scc_accepted_by_checker (g : Graph) (hwf : g.wfb = true) (cs : List (List Nat))
+theorem scc_accepted_by_checker (g : Scc.Graph) (hwf : g.wfb = true) (cs : List (List Nat))
     (h : allScc g = .ok cs) : isSccPartition g cs = true :=
   (isSccPartition_sound_complete g hwf cs).2 (scc_correct g hwf cs h)
 
 /-! ### non-vacuity -/
 
 /-- four vertices `0 → 1`, `1 → 3`, `1 → 2`, `3 → 0` (edge ids in this order): classes `{0,1,3}` and `{2}` -/
-def g4 : Graph :=
+def g4 : Scc.Graph :=
   { n := 4, edges := #[(0, 1), (1, 3), (1, 2), (3, 0)],
     adj := #[[0], [1, 2], [], [3]], rev := #[[3], [0], [2], [1]] }
 
 example : g4.wfb = true := by decide
-example : (Graph.ofEdges 4 [(0, 1), (1, 3), (1, 2), (3, 0)]).adj = g4.adj ∧
-    (Graph.ofEdges 4 [(0, 1), (1, 3), (1, 2), (3, 0)]).rev = g4.rev := by decide
+example : (Scc.Graph.ofEdges 4 [(0, 1), (1, 3), (1, 2), (3, 0)]).adj = g4.adj ∧
+    (Scc.Graph.ofEdges 4 [(0, 1), (1, 3), (1, 2), (3, 0)]).rev = g4.rev := by decide
 
 -- the hypotheses of the theorems are met and the conclusion is not trivial: two components, one of three
 -- vertices; 2 and 3 are not in one component although 3 reaches 2
@@ -225,6 +390,49 @@ the property ("directed graph") and outside the theorems above -/
 example : (match allScc { n := 2, edges := #[(0, 1), (1, 5)], adj := #[[0], [1]], rev := #[[], [0]] } with
     | .ok cs => cs.any (fun c => c.contains 5)
     | .error _ => false) = true := by decide
+
+/-! non-vacuity of the new parts -/
+
+-- the frame-list model runs, and on `g4` gives what the recursive one gives
+example : (match allSccIter g4, allScc g4 with
+    | .ok a, .ok b => a == b && a.length == 2
+    | _, _ => false) = true := by decide
+
+def loadedEdges : List (Edge Nat) := [⟨0, 0, 1, 7⟩, ⟨1, 1, 0, 9⟩, ⟨2, 1, 2, 4⟩]
+def loadedVertices : List (Vertex Nat) := [⟨0, 10, 20⟩, ⟨1, 11, 21⟩, ⟨2, 12, 22⟩]
+
+-- a load that succeeds (scanned counts), two components, one of two vertices; five slots for three vertices
+-- (declared count 5) load as well and give the same components
+example : (match graphFromFiles ⟨true, 4, loadedEdges.map Row.ok⟩ ⟨true, 4, loadedVertices.map Row.ok⟩ none none with
+    | .ok net => (match allSccIter (Scc.Graph.ofNet net) with
+      | .ok cs => cs.length == 2 && cs.any (fun c => c.length == 2) && isSccPartition (Scc.Graph.ofNet net) cs
+      | .error _ => false)
+    | .error _ => false) = true := by decide
+
+example : (match graphFromFiles ⟨true, 4, loadedEdges.map Row.ok⟩ ⟨true, 4, loadedVertices.map Row.ok⟩ (some 3) (some 5) with
+    | .ok net => net.adj.length == 5 && (Scc.Graph.ofNet net).wfb &&
+      (match allSccIter (Scc.Graph.ofNet net) with
+      | .ok cs => cs.length == 2
+      | .error _ => false)
+    | .error _ => false) = true := by decide
+
+-- `incident_triplet_attributes`: forward at vertex 1 two entries, first components vertex 1; reverse at vertex 1
+-- one entry whose first component is vertex 1 (the edge's destination) and whose third is vertex 0 (its source);
+-- an end point that is not a vertex is `VertexNotFound`, a slot naming a missing edge is `EdgeNotFound`
+example : (match (buildGraph loadedEdges loadedVertices 3).incidentTripletAttributes 1 .forward with
+    | .ok l => l.map (fun t => (t.1.vertexId, t.2.1.edgeId, t.2.2.vertexId)) == [(1, 1, 0), (1, 2, 2)]
+    | .error _ => false) = true := by decide
+example : (match (buildGraph loadedEdges loadedVertices 3).incidentTripletAttributes 1 .reverse with
+    | .ok l => l.map (fun t => (t.1.vertexId, t.2.1.edgeId, t.2.2.vertexId)) == [(1, 0, 0)]
+    | .error _ => false) = true := by decide
+example : (match ({ adj := [[(0, 7)]], rev := [[]], edges := [⟨0, 0, 7, 1⟩], vertices := [⟨0, 0, 0⟩] } :
+      Compass.Graph Nat).incidentTripletAttributes 0 .forward with
+    | .error (.vertexNotFound 7) => true
+    | _ => false) = true := by decide
+example : (match ({ adj := [[(9, 0)]], rev := [[]], edges := [], vertices := [⟨0, 0, 0⟩] } :
+      Compass.Graph Nat).incidentTripletAttributes 0 .forward with
+    | .error (.edgeNotFound 9) => true
+    | _ => false) = true := by decide
 
 end C18
 end Compass
